@@ -6,13 +6,6 @@ export CARGO_NET_OFFLINE=true
 python3 tools/extract_consts.py "${VERIF_REPO:-/repo}" >/dev/null
 cd coq
 coq_makefile -f _CoqProject $(find theories -name '*.v' | sort) -o Makefile >/dev/null
-find theories -name '*.v' | sort | tr '\n' ' ' | sed 's/ $//' | tr ' ' '\n' > .filelist.tmp
-python3 - <<'PY'
-import os
-files=[l.strip() for l in open('.filelist.tmp') if l.strip()]
-open('.filelist','w').write("\n".join(sorted(files)))
-os.remove('.filelist.tmp')
-PY
 timeout 3000 make -j16
 cd ../harness
 sed "s#@REPO@#${VERIF_REPO:-/repo}#g" Cargo.toml.in > Cargo.toml
